@@ -26,12 +26,16 @@ SOURCES = [
     ('valid', 'total = 5'), ('runtime', 'total'), ('runtime', 'x + 1'), ('valid', 'len = 3'), ('valid', 'k = 7\nk'), ('runtime', 'k'),
     ('syntax', '1 +\n2'), ('syntax', 'total =\n5'), ('syntax', '[1, 2] |\nlen'), ('syntax', '\n\nx = 1\ny = 2 oops'), ('syntax', '\r\n  \nq = [1,\n2]\nq q'),
     ('valid', 'a = 1\n-2'), ('valid', 'x = 1\n[2]'), ('valid', 'f = v => v\n(1)'),
+    ('valid', 'split("a  b c", "  ")'), ('valid', 'split("a  b c", " ")'), ('valid', 'x = "p  q"\nlen(x)'), ('runtime', '%first  name% + 1'), ('runtime', '%first name% + 1'),
+    ('valid', 'w = "a\tb"\nw'), ('runtime', '%a b% + %a  b%'), ('runtime', '%a% + %b%'), ('syntax', '%a% %b%'), ('runtime', '%a%; %b%'),
     ('opslimit', '[1, 2, 3, 4, 5, 6, 7, 8] | map(v => v + 1) | map(v => v * 2) | map(v => v - 1) | map(v => v)'),
 ]
 SHADOW_USES = [('len', 'len("abc")'), ('len', 'q = [1, 2, 3] | len\nq'), ('str', 'str(12) + "a"'), ('max', 'max(1, 2)'), ('lower', '"AB" | lower'),
                ('sorted', '[3, 1, 2] | sorted'), ('keys', 'keys({"a": 1})'), ('round', 'round(2.5)'), ('map', '[1, 2] | map(v => v + 1)'),
                ('list', '[1, 2]'), ('dict', '{"a": 1}'), ('__getitem__', '[1, 2][0]')]
-NEAR = [lambda s: s, lambda s: s + '\n', lambda s: ' ' + s, lambda s: '\n' + s, lambda s: s + '  ', lambda s: s + '\n\n']
+NEAR = [lambda s: s, lambda s: s + '\n', lambda s: ' ' + s, lambda s: '\n' + s, lambda s: s + '  ', lambda s: s + '\n\n',
+        # every blank doubled / turned into a tab - also INSIDE string literals and %...% names, where it makes a different program
+        lambda s: s.replace(' ', '  '), lambda s: s.replace(' ', '\t'), lambda s: s.replace('  ', ' ')]
 
 
 def norm_exc(e):
@@ -345,7 +349,7 @@ class _Shim:
     pass
 
 
-def record_session(seq_seed, length, cache_kind=None, observe_keys=True):
+def record_session(seq_seed, length, cache_kind=None, observe_keys=True, observe_residue=False):
     """Run a random sequence on one long-lived parser and record, per call, what TraceSession compares:
     outcome of the (implied) parse or of list_names, lexer residue, cache keys."""
     common.import_impl()
@@ -403,7 +407,10 @@ def record_session(seq_seed, length, cache_kind=None, observe_keys=True):
                 obs = {'names': [common.cps(x) for x in part], 'err': 1}
             if c['op'] == 'names_partial':
                 obs.pop('err', None)
-        obs['residue'] = {'pos': P.lex.lexpos, 'lineno': P.lex.lineno, 'paren': getattr(P.lex, 'paren_count', 0)}
+        if observe_residue:
+            # the lexer's internal position / line / depth after the call: an internal observable (recorded for the C11 note only;
+            # a difference there ends the validation of the session, so the property checks leave it out)
+            obs['residue'] = {'pos': P.lex.lexpos, 'lineno': P.lex.lineno, 'paren': getattr(P.lex, 'paren_count', 0)}
         if cache_kind and observe_keys:
             obs['keys'] = [common.cps(k) for k in list(cache)]
         out.append({'text': text, 'op': c['op'], 'k': c.get('k', 0), 'obs': obs})
@@ -418,13 +425,13 @@ def _rec_worker(arg):
         return {'harness_error': ''.join(traceback.format_exception_only(type(e), e))}
 
 
-def validate_sessions(seed, n, length, cache_kind=None, procs=16, mutant_devs=(), observe_keys=True):
+def validate_sessions(seed, n, length, cache_kind=None, procs=16, mutant_devs=(), observe_keys=True, observe_residue=False):
     """Record n sessions and validate them with TLC against SQSession.  Returns (sessions, verdicts, tlc result)."""
     import multiprocessing as mp
     common.snapshot_repo()
     ctx = mp.get_context('fork')
     with ctx.Pool(procs) as pool:
-        sessions = pool.map(_rec_worker, [(seed * 104729 + i, length, cache_kind, observe_keys) for i in range(n)], chunksize=max(1, n // (procs * 4)))
+        sessions = pool.map(_rec_worker, [(seed * 104729 + i, length, cache_kind, observe_keys, observe_residue) for i in range(n)], chunksize=max(1, n // (procs * 4)))
     sessions = [s for s in sessions if not isinstance(s, dict)]
     texts = sorted({c['text'] for s in sessions for c in s})
     idx = {t: i + 1 for i, t in enumerate(texts)}
